@@ -30,7 +30,7 @@ IsSetArg(r) == \A k \in DOMAIN r : r[k][1] >= 0 /\ (r[k][2] = -1 \/ r[k][2] >= r
 
 TReset == IsEvent("Reset") /\ E.beh \in Int /\ t' = NoTopo /\ tc' = <<>> /\ wf' = FALSE
 
-SetupOps == {"init", "synthetic", "xmlbuf", "flags", "filter", "load", "restrict", "group", "misc", "subtype", "destroy"}
+SetupOps == {"init", "synthetic", "xmlbuf", "flags", "filter", "load", "restrict", "allow", "group", "misc", "subtype", "destroy"}
 \* building the topology is C01/C02/C08's business: calls succeed or fail; the recorder freezes the topology once projected
 TSetup == /\ IsEvent("setup") /\ E.op \in SetupOps /\ E.ret \in {0, -1} /\ (E.ret = 0 => E.errno = "0")
           /\ E.op # "destroy" => t.n = 0
